@@ -149,16 +149,19 @@ Qed.
 
 Lemma insert_u_in s l x : In x (insert_u s l) <-> x = s \/ In x l.
 Proof.
-  induction l as [|y r IH]; cbn; [intuition congruence|].
-  destruct (s <? y) eqn:E1; [cbn; intuition congruence|].
-  destruct (s =? y) eqn:E2; [apply Nat.eqb_eq in E2; subst; cbn; intuition congruence|].
-  cbn. rewrite IH. intuition congruence.
+  induction l as [|y r IH]; simpl.
+  - intuition auto.
+  - destruct (s <? y) eqn:E1.
+    + simpl. intuition auto.
+    + destruct (s =? y) eqn:E2.
+      * apply Nat.eqb_eq in E2; subst; simpl. intuition auto.
+      * simpl. rewrite IH. intuition auto.
 Qed.
 
 Lemma insert_u_sorted s l : StronglySorted lt l -> StronglySorted lt (insert_u s l).
 Proof.
-  induction 1 as [|y r Hs IH Hall]; cbn; [repeat constructor|].
-  destruct (s <? y) eqn:E1.
+  induction 1 as [|y r Hs IH Hall]; [cbn; repeat constructor|].
+  cbn [insert_u]. destruct (s <? y) eqn:E1.
   - apply Nat.ltb_lt in E1. constructor; [constructor; assumption|].
     constructor; [exact E1|]. rewrite Forall_forall in *. intros x Hx. specialize (Hall x Hx). lia.
   - destruct (s =? y) eqn:E2; [constructor; assumption|].
@@ -281,15 +284,13 @@ Proof. induction n; intros i e; cbn; [reflexivity|]. rewrite IHn, bumpn_length. 
 Lemma addn_nth n : forall i e j, length e = i + length n ->
   nth j (addn i n e) 0 = if (i <=? j) then nth (j - i) n 0 + nth j e 0 else nth j e 0.
 Proof.
-  induction n as [|a r IH]; intros i e j Hl; cbn in *.
+  induction n as [|a r IH]; intros i e j Hl; cbn [addn length] in *.
   - destruct (i <=? j) eqn:E; [|reflexivity]. destruct (j - i); reflexivity.
   - rewrite IH by (rewrite bumpn_length; lia). rewrite bumpn_nth by lia.
-    destruct (i <=? j) eqn:E1; destruct (S i <=? j) eqn:E2; destruct (j =? i) eqn:E3;
-      try (apply Nat.leb_le in E1); try (apply Nat.leb_gt in E1);
-      try (apply Nat.leb_le in E2); try (apply Nat.leb_gt in E2);
-      try (apply Nat.eqb_eq in E3); try (apply Nat.eqb_neq in E3); try lia.
-    + replace (j - i) with (S (j - S i)) by lia. reflexivity.
-    + subst. rewrite Nat.sub_diag. reflexivity.
+    destruct (Nat.leb_spec i j) as [H1|H1]; destruct (Nat.leb_spec (S i) j) as [H2|H2];
+      destruct (Nat.eqb_spec j i) as [H3|H3]; try lia.
+    + replace (j - i) with (S (j - S i)) by lia. cbn [nth]. reflexivity.
+    + subst. rewrite Nat.sub_diag. cbn [nth]. lia.
 Qed.
 
 Theorem taylor_coeff (P : poly W) n : taylor W P n = P n.
@@ -304,7 +305,7 @@ Proof.
 Qed.
 
 Theorem sympy_to_series_spec (P : poly W) n :
-  sympy_to_series W P n = if vzerob W (P n) then None else Some (EV W n (P n)).
+  sympy_to_series W P n = if vzerob W (P n) then None else Some (EV n (P n)).
 Proof. unfold sympy_to_series. rewrite taylor_coeff. reflexivity. Qed.
 
 (* ------------------------------------------------------------------ *)
